@@ -276,6 +276,35 @@ def splitFace (t : Topo) (f c : Nat) : Topo :=
            cf := t.cf.map (fun e => if e.face = f ∧ e.cell = c then ⟨t.nf, e.cell, e.sign⟩ else e),
            fn := t.fn ++ [t.fn.getD f []] }
 
+/-! ### neighbouring entry points: node queries, trace operator, 1-d constructor -/
+
+/-- `Grid.get_all_boundary_nodes` / `get_boundary_nodes` / `get_boundary_faces`: `_indices(tag)` -/
+def getAllBoundaryNodes (tg : Tags) : Option (List Nat) := (allNodeTags tg).map indicesOf
+def getTagged (tg : Tags) (key : String) : Option (List Nat) := (tg.get key).map indicesOf
+
+/-- `Grid.get_internal_nodes`: `setdiff1d(arange(num_nodes), get_boundary_nodes())` -/
+def getInternalNodes (t : Topo) (tg : Tags) : Option (List Nat) :=
+  (getTagged tg "domain_boundary_nodes").map (fun b => (List.range t.nn).filter (fun n => !b.contains n))
+
+/-- `Grid.trace(dim)` for dim ≥ 1, given `bf = get_all_boundary_faces()`: one unit entry
+    `(f·dim + k, c·dim + k)` per boundary face f (with its cell c) and component k;
+    `none` = ValueError raised by `signs_and_cells_of_boundary_faces`. -/
+def trace (t : Topo) (bf : List Nat) (dim : Nat) : Option Triplets :=
+  match signsAndCells t bf with
+  | none => none
+  | some sc =>
+    some ((bf.zip sc).flatMap (fun p =>
+      (List.range dim).map (fun k => (p.1 * dim + k, p.2.2 * dim + k, (1 : Int)))))
+
+/-- `TensorGrid._create_1d_grid`: cell c has faces c (sign −1) and c+1 (sign +1), stored cell by cell -/
+def lineCf : Nat → List Inc
+  | 0 => []
+  | n + 1 => lineCf n ++ [⟨n, n, -1⟩, ⟨n + 1, n, 1⟩]
+
+/-- topology of `TensorGrid(x)` / `CartGrid(n)` in 1-d with n cells -/
+def line1d (n : Nat) : Topo :=
+  { dim := 1, nf := n + 1, nc := n, nn := n + 1, cf := lineCf n, fn := (List.range (n + 1)).map (fun i => [i]) }
+
 /-! ### specification vocabulary and well-formed topologies (hypothesis of the theorems) -/
 
 /-- cell `c` is adjacent to face `f`: the incidence stores a non-zero entry at (f, c) -/
